@@ -9,3 +9,9 @@ TRUSTED = ['A1', 'A2', 'A4', 'A5', 'A6', 'UF']
 
 def jobs(tier):
     return jobs_for('C04', MODULES, tier)
+
+
+def extra(tier, seed):
+    from fvverif.lean import lemma_status
+    ok, detail = lemma_status(['unique_solution'], rebuild=(tier == 'thorough'))
+    return [('lean lemmas unique_solution: two field vectors satisfying the same rows of a non-singular system are equal (solvePDE vs solveMatrixPDE, linear dependence on data)', ok, 'lean:' + detail)]
